@@ -1750,6 +1750,8 @@ def _unparenthesize_grouping(self: fst.FST, shared: bool | None = True, *, star_
         else:
             self._put_src(None, pln, pcol, ln, col, False)
 
+        self._touch()  # parentheses replaced by spaces directly in the lines do not go through an offset so cached `pars()` must be dropped explicitly
+
     return True
 
 
